@@ -5,6 +5,7 @@ CONSTANTS
   MaxGen = 3
   MaxTokens = 2
   Depth = 7
+  WithRebase = TRUE
 VIEW View
 INVARIANTS TypeOK FreshKeys AcceptedMeansLive
 PROPERTIES DeadStaysDead
